@@ -183,7 +183,7 @@ FAMILIES["C04"] = dict(
     rule="a case is a program text; non-trivial when the grammar specification does not abstain and the real parser built a tree (or rejected the text) for it; distinct by bytes",
     level_text=("The grammar is specified twice in TLA+: functionally (JSyntax!Parse: precedence climbing over the ten precedence rows, driven by the scanner specification exactly where a regular expression is allowed, plus the tree normalisation) "
                 "and declaratively (MC_C04!WellShaped/Yield: every infix node's left child binds at least as tightly, its right child strictly tighter except under :=, and the in-order yield is the token sequence). TLC checks that they agree and that the tree "
-                "does not depend on whitespace for every chain of 2..3 (4 thorough) infix/postfix operators over the complete operator set (18 binary tokens, [p], [], {k:v}, ^(k), (a), ?:, ?) in three operand flavours; every chain is rendered tightly and with "
+                "does not depend on whitespace for every chain of 2..3 infix/postfix operators (thorough: also every chain of 4 binary operators over variables) over the complete operator set (18 binary tokens, [p], [], {k:v}, ^(k), (a), ?:, ?) in seven operand flavours (variables, names, literals, negated tight and spaced, operands ending in } and |); every chain is rendered tightly and with "
                 "generous whitespace, compiled by the real parser, and its exported tree compared with the specification's by trace validation (TraceParse); seeded generated programs of every family are validated the same way."),
     level_note=_SEM_NOTE + " Regular-expression literals and lambda signatures are outside JSyntax (the specification abstains; see C17/C12).",
 )
